@@ -10,7 +10,7 @@ DRIVER = "C12"
 TIMEOUT = 1500
 
 RULE = ("savefiles of generated applications (C12's family: preset selectors with dependent defaults, toggles that "
-        "allocate a pointer sub-tree, enabled-by on embedded sub-trees (also by a port inside the sub-tree), rDepends lists, up to 3 levels, enumerated "
+        "allocate a pointer sub-tree, enabled-by on embedded sub-trees (also by a port inside the sub-tree, and tables switched as a whole by one of their own ports: rSelf(.., rEnabledBy(x))), rDepends lists, up to 3 levels, enumerated "
         "sub-trees) in states reached by 3..12 random parameter messages; the message lines are permuted: ALL "
         "permutations up to 6 lines (quick: always up to 4 lines, for every 4th file up to 6), random permutations "
         "beyond; plus sub-files from which depended-on lines (selectors, switches together with their sub-tree) are "
@@ -34,8 +34,10 @@ def gen(rng, tier, dist):
     dist["macro-made metadata blocks"] = len(out)
     for c in range(n):
         static = c % 5 == 4
+        inner = rng.random() < 0.3      # a switch inside the sub-tree it enables (sub/ and arr#3/)
         opts = {"p_soft": 0.6 if rng.random() < 0.5 else 0.0, "p_sel": 0.8, "p_ptr": 0.7,
-                "p_rdep": 0.7, "p_nodef": 0.03, "p_inner": 0.5 if rng.random() < 0.3 else 0.0}
+                "p_rdep": 0.7, "p_nodef": 0.03, "p_inner": 0.6 if inner else 0.0, "p_arr": 0.7 if inner else 0.4,
+                "p_self": 0.8 if rng.random() < 0.3 else 0.0}
         app = sc.static_app() if static else sc.gen_app(rng, opts)
         ref = sc.Ref(app)
         if not ref.flat:
@@ -44,7 +46,9 @@ def gen(rng, tier, dist):
             dist["macro-made application"] = dist.get("macro-made application", 0) + 1
         tree, flat, apro = app.tree(), sc.flat_text(ref.flat), sc.apro_text(app, ref.flat, ref.dirs)
         nops = rng.choice([3, 4, 5, 6, 8, 12])
-        ops, mops = sc.gen_ops(rng, ref, nops)
+        # files with a dependency among their lines: every third application, and all those with a switch inside
+        # the directory it governs (rSelf / "name/toggle")
+        ops, mops = sc.gen_ops(rng, ref, nops, focus=(c % 3 == 0 or opts["p_self"] > 0 or opts["p_inner"] > 0))
         st = [list(v) if ref.exists(i) else None for i, v in enumerate(ref.st)]
         want = sc.expected_lines_of_state(ref, st)
         paths = sorted((k[:-2] if k.endswith("~[") else k) for k in want)
@@ -216,5 +220,7 @@ LEVEL_TEXT = ("The sort as coded is proved correct for ALL inputs: on acyclic (r
               "dependency-respecting orders of the same lines give the same state and count when independent messages commute "
               "(C13_linear_extensions_agree); for C12's abstract application the commutation is proved, so permuting the lines of a file "
               "changes neither the state nor the count (C13_perm_invariant: wf_app, metadata declares the dependencies - decidable, "
-              "C13_declared_computed, evaluated in the tie -, acyclic edges); C13_edges_complete, C13_same_edges full at model level.")
+              "C13_declared_computed, evaluated in the tie -, acyclic edges); C13_edges_complete, C13_edges_complete_self (the self: port of every "
+              "directory above a line: rSelf(.., rEnabledBy(x))), C13_same_edges full at model level; an entry naming a port inside an enumerated "
+              "sub-tree resolves below the line's own expanded address (resolve_entry).")
 LEVEL_NOTE = "apropos (C18) and the metadata lookup (C17) enter the model as a function argument; the application semantics are C12's abstract application"
